@@ -400,6 +400,9 @@ func (b *Broker) setSession(client *Client, connect *packets.ConnectPacket) {
 		client.session = prevSess
 	} else {
 		if prevSess != nil {
+			// the previous session is discarded, and so are its subscriptions
+			topics, _, _ := prevSess.allSubscribes()
+			b.topicMgr.unsubscribe(topics, connect.ClientIdentifier)
 			prevSess.close()
 		}
 		client.session = b.sessMgr.newSessionFromConn(connect)
